@@ -489,13 +489,24 @@ def rule_console_total_resolution(repo, rep):
     m = repo.mod("stats_writer")
     fn = m.func("print_performance_metrics_for_strat")
     site = "ethosu/vela/stats_writer.py:print_performance_metrics_for_strat"
+    local_defs = {}
+    for st_ in ast.walk(fn):
+        if isinstance(st_, ast.Assign) and len(st_.targets) == 1 and isinstance(st_.targets[0], ast.Name):
+            local_defs.setdefault(st_.targets[0].id, []).append(st_.value)
+
+    def resolved(e_):
+        """a local bound once to an expression over memory_used stands for that expression"""
+        if isinstance(e_, ast.Name) and len(local_defs.get(e_.id, [])) == 1 and "memory_used" in str(norm(local_defs[e_.id][0])):
+            return local_defs[e_.id][0]
+        return e_
+
     prints = [c for c in ast.walk(fn) if isinstance(c, ast.Call) and call_name(c) == "print" and c.args and isinstance(c.args[0], ast.JoinedStr) and "Total " in "".join(str(v.value) for v in c.args[0].values if isinstance(v, ast.Constant))
               and any(isinstance(v, ast.FormattedValue) and "aug_label" in str(norm(v.value)) for v in c.args[0].values)
-              and any(isinstance(v, ast.FormattedValue) and "memory_used" in str(norm(v.value)) or (isinstance(v, ast.FormattedValue) and isinstance(v.value, ast.Name) and v.value.id in ("used", "size", "total")) for v in c.args[0].values)]
+              and any(isinstance(v, ast.FormattedValue) and ("memory_used" in str(norm(resolved(v.value))) or (isinstance(v.value, ast.Name) and v.value.id in ("used", "size", "total"))) for v in c.args[0].values)]
     if len(prints) != 1:
         raise AnalysisError(f"print_performance_metrics_for_strat: {len(prints)} 'Total .. used' lines")
     vals = [v for v in prints[0].args[0].values if isinstance(v, ast.FormattedValue) and "aug_label" not in str(norm(v.value))]
     unit = "".join(str(v.value) for v in prints[0].args[0].values if isinstance(v, ast.Constant))
-    ok = len(vals) == 1 and str(norm(vals[0].value)) in ("memory_used[mem_area] / 1024.0", "memory_used[mem_area] / 1024") and unit.rstrip().endswith("KiB")
+    ok = len(vals) == 1 and str(norm(resolved(vals[0].value))) in ("memory_used[mem_area] / 1024.0", "memory_used[mem_area] / 1024") and unit.rstrip().endswith("KiB")
     rep.check(ok, "C12-r", site, "the total is printed as memory_used / 1024 in KiB (two decimals: 10.24-byte resolution)",
               f"prints `{[str(norm(v.value)) for v in vals]}` with unit text `{unit.strip()[-12:]}`: a coarser unit drops kilobytes - 1073152 bytes is shown as 1.02 MiB = 1069547 bytes, less than the plan needs")
